@@ -238,7 +238,7 @@ def run_loop(case):
     ls = 9
     cfg = dict(script=[[5, "T"], [8, "U"], [3, "T"]], seed=case["seed"],
                total_timesteps=case["total"], learning_starts=ls, batch_size=4,
-               update_frequency=2, target_update_frequency=d * 2, tau=tau,
+               update_frequency=2, target_update_frequency=d * 2 + 1, tau=tau,
                policy_delay=d, target_network_delay=d, target_delay=d + 1,
                gradient_steps=case["gradient_steps"], use_checkpoints=False,
                logger=True, snap_on_log=True, low=[-1.0, 0.0], high=[1.0, 2.0],
@@ -274,7 +274,8 @@ def run_loop(case):
     if algo in ("nature_dqn", "ddqn", "per"):
         law = {"q_target": ("q", "hard", "B")}
         def is_point(idx):
-            return idx > 4 and idx >= ls and idx % (d * 2) == 0
+            # deliberately not a multiple of update_frequency (= 2)
+            return idx > 4 and idx >= ls and idx % (d * 2 + 1) == 0
     elif algo == "ddpg":
         law = {"policy_target": ("policy", "soft", "B"), "q_target": ("q", "soft", "B")}
         def is_point(idx):
